@@ -435,8 +435,13 @@ pub fn run(ctx: &Ctx) -> i32 {
             // up to 13 streams (the heap and the per-stream slots have no reason to care, so neither should the result)
             let k = kmax_full + 1 + rng.usize(if quick { 8 } else { 10 });
             let mut ins: Vec<(&Input, Kind)> = vec![];
+            // every 4th sampled tuple consists of whole FSTs only, so that it can go through FromIterator / Extend (one Extend call
+            // then delivers up to 12 streams to a builder that already holds some)
             for _ in 0..k {
-                ins.push((&inputs[rng.usize(nsub)][rng.usize(4)], *rng.pick(&KINDS)));
+                ins.push((&inputs[rng.usize(nsub)][rng.usize(4)], if t % 4 == 0 { Kind::Whole } else { *rng.pick(&KINDS) }));
+            }
+            if t % 4 == 0 {
+                ev.count("cov:many-whole-fsts-through-extend-or-collect");
             }
             let mut h = 0xC05u64;
             for (i, kd) in &ins {
@@ -551,6 +556,7 @@ pub fn run(ctx: &Ctx) -> i32 {
                 ("cov:tuples-with-70-byte-common-prefix", 1000),
                 ("cov:k=9", 100),
                 ("cov:k=12", 100),
+                ("cov:many-whole-fsts-through-extend-or-collect", 1000),
                 ("cov:run-structured-tuples", 400),
                 ("cov:run-ended-by-shared-key", 1000),
             ],
